@@ -268,7 +268,7 @@ func GenConfig(t *rapid.T) *ConfigCase {
 	case 3:
 		c.Run.Args = []string{}
 	case 4:
-		c.FileName = rapid.SampledFrom([]string{"node.json", "my.config.json", "CONFIG.JSON"}).Draw(t, "conf-name")
+		c.FileName = rapid.SampledFrom([]string{"node.json", "my.config.json", "CONFIG.JSON", "node.yaml", "node.yml"}).Draw(t, "conf-name")
 		c.Run.Args = []string{"--conf", "./" + c.FileName}
 	case 5:
 		m := rapid.SampledFrom([]uint32{2017001, 2018101, 5}).Draw(t, "cli-magic")
